@@ -50,11 +50,43 @@ theorem nested_eraseIdx {cols : List Level} {recs : List (List Node)} (hr : Recs
       have hlt : j + 1 + 1 < cols.length := by split at hj <;> omega
       exact hn (j+1) hlt a ha b hb he
 
-/-- the tree built from nested records is well formed -/
+/-- the tree built from at least one record has a node at its top level -/
+theorem fromRecordsRaw_hasNode {cols : List Level} {recs : List (List Node)} (hc : cols.Nodup)
+    (hne : cols ≠ []) (hr : RecsOK cols recs) (hrec : recs ≠ []) :
+    ∀ l0, (fromRecordsRaw cols recs).hierarchy.head? = some l0 →
+      (fromRecordsRaw cols recs).nodesAt l0 ≠ [] := by
+  intro l0 h0
+  have hpos : 0 < cols.length := List.length_pos_iff.2 hne
+  have e : l0 = cols[0] := by
+    rw [fromRecordsRaw_hierarchy, List.head?_eq_getElem?, List.getElem?_eq_getElem hpos] at h0
+    exact (Option.some.inj h0).symm
+  subst e
+  obtain ⟨r0, rs0, rfl⟩ := List.exists_cons_of_ne_nil hrec
+  have hlen : r0.length = cols.length := hr r0 List.mem_cons_self
+  have : r0[0]'(by omega) ∈ (fromRecordsRaw cols (r0 :: rs0)).nodesAt cols[0] :=
+    (fromRecordsRaw_nodes hc hr 0 hpos _).2
+      ⟨r0, List.mem_cons_self, List.getElem?_eq_getElem (by omega)⟩
+  intro hnil
+  rw [hnil] at this
+  cases this
+
+/-- … and the tree built from no record has none -/
+theorem fromRecordsRaw_nil_noNode {cols : List Level} (hc : cols.Nodup) (hne : cols ≠ []) :
+    (fromRecordsRaw cols []).nodesAt (cols[0]'(List.length_pos_iff.2 hne)) = [] := by
+  have hpos : 0 < cols.length := List.length_pos_iff.2 hne
+  cases h : (fromRecordsRaw cols []).nodesAt cols[0] with
+  | nil => rfl
+  | cons p ps =>
+    have hp : p ∈ (fromRecordsRaw cols []).nodesAt cols[0] := by rw [h]; exact List.mem_cons_self
+    obtain ⟨r, hr', _⟩ := (fromRecordsRaw_nodes hc (fun r hr => by cases hr) 0 hpos p).1 hp
+    cases hr'
+
+/-- the tree built from nested records (at least one) is well formed -/
 theorem fromRecordsRaw_wf {cols : List Level} {recs : List (List Node)} (hc : cols.Nodup)
-    (hne : cols ≠ []) (hr : RecsOK cols recs) (hn : Nested cols recs) :
+    (hne : cols ≠ []) (hr : RecsOK cols recs) (hn : Nested cols recs) (hrec : recs ≠ []) :
     WF (fromRecordsRaw cols recs) where
-  valid := validate_of_strict hc hne ((fromRecordsRaw_strict_iff hc hr).2 hn)
+  valid := validate_of_strict hc hne (fromRecordsRaw_hasNode hc hne hr hrec)
+    ((fromRecordsRaw_strict_iff hc hr).2 hn)
   hNodup := hc
   hNe := hne
   dict := fromRecordsRaw_dictOK hc recs
@@ -310,8 +342,8 @@ theorem drop_build_equiv (hc : cols.Nodup) (hr : RecsOK cols recs) (hn : Nested 
     drop_hierarchy (t := fromRecordsRaw cols recs) hc hi hraw
   have hcE : (cols.eraseIdx i).Nodup := hc.sublist (List.eraseIdx_sublist _ _)
   have hneE : cols.eraseIdx i ≠ [] := by rw [← hh]; exact w'.hNe
-  have w₂ : WF (fromRecordsRaw (cols.eraseIdx i) (recs.map (·.eraseIdx i))) :=
-    fromRecordsRaw_wf hcE hneE (recsOK_eraseIdx hr i) (nested_eraseIdx hr hn i)
+  have s₂ : Strict (fromRecordsRaw (cols.eraseIdx i) (recs.map (·.eraseIdx i))) :=
+    (fromRecordsRaw_strict_iff hcE (recsOK_eraseIdx hr i)).2 (nested_eraseIdx hr hn i)
   refine ⟨hh, ?_, ?_⟩
   · intro l hl n
     rw [hh, List.mem_eraseIdx_iff_getElem] at hl
@@ -323,7 +355,7 @@ theorem drop_build_equiv (hc : cols.Nodup) (hr : RecsOK cols recs) (hn : Nested 
     obtain ⟨j, hj, hji, rfl⟩ := hl'
     refine perm_of_nodup_of_mem_iff
       ((strict_of_validate w'.valid).entry_nodup_of_mem hl hm)
-      ((strict_of_validate w₂.valid).entry_nodup_of_mem (hh ▸ hl)
+      (s₂.entry_nodup_of_mem (hh ▸ hl)
         ((drop_build_nodes hc hr hi hraw hj hji n).1 hm))
       (drop_build_mem_entry hc hr hn hi hraw hj hji n)
 
@@ -331,12 +363,13 @@ theorem drop_build_equiv (hc : cols.Nodup) (hr : RecsOK cols recs) (hn : Nested 
 the order of dict keys and of the child / row lists, the tree built from the
 records with column `i` erased -/
 theorem drop_commutes_build {cols : List Level} {recs : List (List Node)} (hc : cols.Nodup)
-    (hr : RecsOK cols recs) (hn : Nested cols recs) {i : Nat} (hi : i < cols.length)
+    (hr : RecsOK cols recs) (hn : Nested cols recs) (hrec : recs ≠ []) {i : Nat}
+    (hi : i < cols.length)
     (h2 : 2 ≤ cols.length) (allowLeaf : Bool) (hl : allowLeaf = true ∨ i + 1 < cols.length) :
     ∃ t', (fromRecordsRaw cols recs).dropLevel cols[i] allowLeaf = .ok t' ∧
       TreeEquiv t' (fromRecordsRaw (cols.eraseIdx i) (recs.map (·.eraseIdx i))) := by
   have hne : cols ≠ [] := by intro h; rw [h] at hi; cases hi
-  have w : WF (fromRecordsRaw cols recs) := fromRecordsRaw_wf hc hne hr hn
+  have w : WF (fromRecordsRaw cols recs) := fromRecordsRaw_wf hc hne hr hn hrec
   obtain ⟨t', hd, hraw, w'⟩ := dropLevel_eq_ok w (i := i) hi h2 hl
   exact ⟨t', hd, drop_build_equiv hc hr hn hi hraw w'⟩
 
